@@ -75,13 +75,24 @@ def upload(n, crc, sized, how, fault=None):
         if how.startswith("chunks:"):          # buffered stream read in pieces: "chunks:<buffering>:<chunk>"
             buffering = int(how.split(":")[1])
         else:
-            buffering = 1024 if how == "buffered" else 0
+            buffering = 1024 if how in ("buffered", "exact") else 0
         fp = rig.client.open(idx, sub, "rb", buffering=buffering, block_transfer=True,
-                             request_crc_support=True)
+                             request_crc_support=(crc != 2))
         try:
             if how == "raw7":
                 parts = []
                 while True:
+                    d = fp.read(7)
+                    if not d:
+                        break
+                    parts.extend(sx.items(d))
+                got = sx.mkbytes(parts)
+            elif how == "exact":
+                # the caller asks for exactly the announced number of bytes and stops there
+                got = fp.read(n)
+            elif how == "raw7-size":
+                parts = []
+                while fp.size is not None and len(parts) < fp.size:
                     d = fp.read(7)
                     if not d:
                         break
@@ -99,7 +110,7 @@ def upload(n, crc, sized, how, fault=None):
                 got = sx.mkbytes(parts)
             else:
                 got = fp.read()
-            if how in ("rawall", "raw7"):
+            if how in ("rawall", "raw7", "raw7-size"):
                 sx.prove(fp.size == (n if sized else None), "announced size", tag + "/size")
         finally:
             fp.close()
@@ -172,10 +183,23 @@ def jobs(tier):
             out.append(dict(func="upload", params=dict(n=n, crc=0, sized=1, how="buffered", fault=["lose", k]),
                             weight=n * 3))
         out.append(dict(func="upload", params=dict(n=n, crc=1, sized=1, how="buffered", fault=["crc"]), weight=n))
+        # the caller reads exactly the announced size and stops: the check must not wait for a further read
+        for how in ("exact", "raw7-size"):
+            out.append(dict(func="upload", params=dict(n=n, crc=1, sized=1, how=how, fault=["crc"]), weight=n))
+            out.append(dict(func="upload", params=dict(n=n, crc=1, sized=1, how=how), weight=n))
+        out.append(dict(func="upload", params=dict(n=n, crc=2, sized=1, how="buffered"), weight=n))
         out.append(dict(func="upload", params=dict(n=n, crc=1, sized=1, how="buffered", fault=["end"]), weight=n))
         # the same faults when the server does not indicate the size
         out.append(dict(func="upload", params=dict(n=n, crc=1, sized=0, how="buffered", fault=["crc"]), weight=n))
         out.append(dict(func="upload", params=dict(n=n, crc=1, sized=0, how="rawall", fault=["lose", 1]), weight=n))
+    # several sub-blocks (127 segments each): the segment lost is the last of a sub-block, the first of the next one
+    # or one in the middle of a later sub-block; with and without CRC
+    for n, ks in ((2000, (126, 127, 128, 200, 253, 254)),) if q else ((2000, (0, 1, 126, 127, 128, 200, 253, 254, 255, 280, 285)),
+                                                                      (1778, (126, 127, 253)), (1779, (127, 253, 254))):
+        for k in ks:
+            for crc in (1, 0):
+                out.append(dict(func="upload", params=dict(n=n, crc=crc, sized=1, how="buffered", fault=["lose", k]),
+                                weight=n))
     for n in ((7, 14) if q else (7, 14, 21)):
         nseg = -(-n // 7)
         for k in range(nseg):
